@@ -44,7 +44,7 @@ Proof. reflexivity. Qed.
 Lemma table_lookup_tie : Gen_handlers.getitem_plain = true /\ Gen_handlers.serve_all_closes = true.
 Proof. split; reflexivity. Qed.
 (* the names the implementation itself looks up on objects it handles for the peer (the fuzzer's expected noise) *)
-Lemma const_names_tie : Gen_handlers.const_names = ["____conn__"; "____id_pack__"; "__bases__"; "__call__"; "__class__"; "__dict__"; "__module__"; "__mro__"; "__name__"; "__qualname__"; "_rpyc_delattr"; "_rpyc_getattr"; "_rpyc_setattr"; "keys"; "on_disconnect"].
+Lemma const_names_tie : Gen_handlers.const_names = ["____conn__"; "____id_pack__"; "__bases__"; "__call__"; "__class__"; "__class_getitem__"; "__dict__"; "__module__"; "__mro__"; "__name__"; "__qualname__"; "_rpyc_delattr"; "_rpyc_getattr"; "_rpyc_setattr"; "keys"; "on_disconnect"].
 Proof. reflexivity. Qed.
 
 (* the default configuration the theorems are instantiated with *)
